@@ -24,7 +24,9 @@ SPEC = dict(
     "per component with the region's own dV (so a field of the region's space is a fixed point: the right-hand side of nodal data "
     "interpolated with the same basis is the matrix times that data); O6 extrapolate's core identity: the element's shape functions "
     "evaluated at the inverted Gauss points map Gauss-point values of a multilinear function to its nodal values (Quad / Hexahedron with "
-    "the order-1 rule, 70-digit Gauss points).",
+    "the order-1 rule, 70-digit Gauss points); O7 tools.extrapolate evaluated from source with felupe's own Mesh, Region and Field on a distorted "
+    "two-cell quad / hexahedron mesh: result[p, i, j, ...] == mean over the attached cells of sum_q h_q(1/g_a) values[i, j, ..., q, c] for tensor "
+    "orders 0-3 and every average / mean flag. The view scenario moves the field after the body was built (the view reports the field it is given).",
     trusted_base=["scipy.sparse.linalg.spsolve (opaque)", "C02 assembly, C04 elements, C05 rules"],
     explanation="algebraic value numbering on the micro-instance",
     exhaustive=True,
@@ -116,6 +118,9 @@ def run_celldata(col):
 
     it.call_hooks[("felupe.view._mesh", "ViewMesh.__init__")] = h_viewmesh
     VS = it.get("felupe.view._solid:ViewSolid")
+    # the field moves on after the body was created / last assembled: the view reports the state of the field it is given
+    f0 = fc.attrs["fields"][0]
+    it.setattr(f0, "values", symarray("Unew", np.asarray(f0.attrs["values"]).shape))
     it.call(VS, [fc], dict(solid=body))
     cd = captured.get("mesh_kwargs", {}).get("cell_data", {})
     sig = it.call(it.getattr(it.getattr(body, "evaluate"), "cauchy_stress"), [fc], {})
